@@ -169,6 +169,8 @@ pub fn run_behaviour(b: &Value) -> Outcome {
                     if cmin == usize::MAX { cmin = input.len(); }
                     results.push((okay, d, cmin));
                 }
+                out.observed.push(json!({"call":ci,"same_a":hexdata(&results[0].1),"same_a_count":results[0].2,
+                    "same_b":hexdata(&results[1].1),"same_b_count":results[1].2}));
                 if results[0].0 && results[1].0 {
                     if !data_bits_eq(&results[0].1, &results[1].1) {
                         out.fails.push(json!({"call":ci,"what":"same_data","a":call["a"],"b":call["b"],
@@ -207,6 +209,43 @@ pub fn run_behaviour(b: &Value) -> Outcome {
         }
     }
     out
+}
+
+/// gvh replay twin <in.ndjson> <out.ndjson>: every behaviour is executed in a Minimal and in a
+/// Plain context; the two observation sequences (ok/err of op, counts, result bits, steps) must be identical
+pub fn replay_twin(input: &str, output: &str) -> i32 {
+    use std::io::{BufRead, Write};
+    quiet_panics();
+    let f = std::fs::File::open(input).expect("cannot open behaviours");
+    let mut w = std::io::BufWriter::new(std::fs::File::create(output).expect("cannot create output"));
+    let (mut total, mut bad, mut evals) = (0usize, 0usize, 0usize);
+    for line in std::io::BufReader::new(f).lines() {
+        let line = line.unwrap();
+        if line.trim().is_empty() {
+            continue;
+        }
+        let mut b: Value = serde_json::from_str(&line).expect("bad behaviour json");
+        b["ctx"] = json!("minimal");
+        let m = run_behaviour(&b);
+        b["ctx"] = json!("plain");
+        let p = run_behaviour(&b);
+        total += 1;
+        evals += m.evaluations + p.evaluations;
+        // error texts may name the provider; everything else must coincide
+        let strip = |o: &Vec<Value>| -> Vec<Value> {
+            o.iter().map(|x| { let mut y = x.clone(); if let Some(m) = y.as_object_mut() { m.remove("err"); } y }).collect()
+        };
+        let (mo, po) = (strip(&m.observed), strip(&p.observed));
+        if mo != po {
+            bad += 1;
+            let k = mo.iter().zip(po.iter()).position(|(a, b)| a != b).unwrap_or(mo.len().min(po.len()));
+            writeln!(w, "{}", json!({"id": b["id"], "behaviour": b, "fails": [{"what":"minimal_vs_plain","index":k,
+                "minimal": mo.get(k), "plain": po.get(k)}]})).unwrap();
+        }
+    }
+    writeln!(w, "{}", json!({"summary": true, "behaviours": total, "mismatching": bad, "evaluations": evals})).unwrap();
+    println!("twin-replayed {total} behaviours, {bad} differing, {evals} evaluations");
+    if bad > 0 { 1 } else { 0 }
 }
 
 /// gvh replay script <in.ndjson> <out.ndjson>
